@@ -21,7 +21,8 @@ RULE = (
 ASSUMPTIONS = [
     "years, months and weeks of any size (to 1e20: they are exact integers in "
     "the library); day counts stay below 1e11 because the library folds days "
-    "into float seconds for == / hash, which is exact only below 2**53 s",
+    "into float seconds for == / hash, which is exact only below 2**53 s; "
+    "whole numbers held in floats (accepted by the constructor) up to 1e9",
     "only finite numbers; decimals in generated *text* sit on the smallest "
     "unit present (ISO rule); str(d) output may carry decimals on several "
     "units and is still required to round-trip",
@@ -154,6 +155,8 @@ def st_obj(draw):
         w = draw(st.one_of(st.integers(-10 ** 6, 10 ** 6),
                            st.integers(-10 ** 20, 10 ** 20),
                            st.sampled_from([0, 1, -1, 52, -53, 2 ** 53 + 1])))
+        if abs(w) <= 10 ** 9 and draw(st.integers(0, 3)) == 0:
+            w = float(w)        # a whole number held in a float is accepted
         return {"kind": "obj", "d": {"weeks": w}}
     sign = draw(st.sampled_from([1, 1, -1]))
     kw = {}
@@ -171,6 +174,8 @@ def st_obj(draw):
                 # years / months are compared as exact integers: any size
                 v = draw(st.one_of(st.integers(2 ** 53, 10 ** 20),
                                    st.sampled_from([2 ** 53 + 1])))
+            elif v < 2 ** 53 and draw(st.integers(0, 5)) == 0:
+                v = float(v)    # a whole number held in a float is accepted
         else:
             how = draw(st.integers(0, 5))
             if how <= 1:
